@@ -859,6 +859,19 @@ class PyvalColorizer:
             flags_str = '(?%s)' % ''.join(flags_list)
             self._output(flags_str, self.RE_FLAGS_TAG, state)
 
+    @staticmethod
+    def _re_starts_with_digit(elt: Tuple[sre_constants._NamedIntConstant, Any]) -> bool:
+        """
+        Whether the text written for this element of a regex tree starts with a digit:
+        a literal digit, or the repetition of one (C{0*}, C{1{2,3}}).
+        """
+        op, args = elt
+        if op == sre_constants.LITERAL: #type:ignore[attr-defined]
+            return chr(cast(int, args)).isdigit()
+        if op in (sre_constants.MAX_REPEAT, sre_constants.MIN_REPEAT) and len(args[2]) == 1: #type:ignore[attr-defined]
+            return PyvalColorizer._re_starts_with_digit(args[2][0])
+        return False
+
     def _colorize_re_tree(self, tree: Sequence[Tuple[sre_constants._NamedIntConstant, Any]],
                           state: _ColorizerState, noparen: bool, groups: Dict[int, str], 
                           in_class: bool = False) -> None:
@@ -994,8 +1007,7 @@ class PyvalColorizer:
                 nxt = tree[idx+1] if idx+1 < len(tree) else None
                 if args in groups:
                     self._output('(?P=%s)' % groups[args], self.RE_REF_TAG, state)
-                elif (nxt is not None and nxt[0] == sre_constants.LITERAL #type:ignore[attr-defined]
-                      and chr(cast(int, nxt[1])).isdigit()):
+                elif nxt is not None and self._re_starts_with_digit(nxt):
                     # A digit that follows would be read as part of the group number.
                     self._output('(?:', self.RE_GROUP_TAG, state)
                     self._output('\\%d' % args, self.RE_REF_TAG, state)
